@@ -129,6 +129,41 @@ def well_behaved(meta):
 STABLE = (0, 1, 2, 5)    # deframers honouring the documented contract (5: length prefix)
 
 
+NOVEL = []      # see vlib/dictionary.py
+
+
+def dictionary_cases(modes):
+    from . import dictionary
+    cases = []
+    EXACT = set(dictionary.exact())      # the literals themselves (NOVEL also has their neighbours); the expensive scenarios use only these
+    for v in NOVEL:
+        for which, nl in ((0, 10), (1, 10), (2, 0)):
+            term = [13, 10] if which == 1 else [nl]
+            S = dictionary.size_for(v + 3)
+            for mode in modes[:1]:
+                if S is not None:
+                    # read offset = v when the call starts
+                    cases.append(mk_case(S, which, [122] * v + [97], v, [98] + term + [99] + term, [(0, 1, 0)] * 3 + [(0, 70000, 0)] * 6, 4, mode, "dictionary"))
+                    # read offset = v and the next frame fits only after compaction (unread + stream < SIZE, but not behind the offset)
+                    if 2 <= v and S - v <= 20000 and which == 0 and v in EXACT:
+                        cases.append(mk_case(S, which, [122] * v + [97], v, [98] * (S - v - len(term)) + term + [99] + term, [(0, 70000, 0)] * 8, 3, mode, "dictionary"))
+                        cases.append(mk_case(S, which, [122] * v + [97], v, [98] * (S - v - len(term)) + term + [99] + term, [(0, 5, 0)] + [(0, 70000, 0)] * 8, 3, mode, "dictionary"))
+                    # a frame of exactly v payload bytes, in one chunk, in chunks of v, one byte at a time at the boundary
+                    st = [97] * min(v, 4096) + term + [98] + term       # the model's deframers are quadratic: cap the frame length
+                    big = [(0, 70000, 0)] * 6         # every script ends in whole-buffer reads: no byte-at-a-time tail over a long stream
+                    for script in ([], [(0, max(v, 1), 0)], [(0, max(v - 1, 1), 0), (0, 1, 0), (0, 1, 0)], [(0, 3, 0)] * 5):
+                        cases.append(mk_case(S, which, [], 0, st, script + big, 4, mode, "dictionary"))
+                    # unread length = v before the call
+                    if v <= 4096:
+                        cases.append(mk_case(S, which, [97] * v, 0, term + [98] + term, [(0, 2, 0)] + [(0, 70000, 0)] * 6, 3, mode, "dictionary"))
+                if v in dictionary.HSIZES and v <= 4096:
+                    # SIZE = v: a stream that fills it without a terminator, and one that just fits
+                    cases.append(mk_case(v, which, [], 0, [97] * (v + 2), [(0, 70000, 0)] * 6, 2, mode, "dictionary"))
+                    if v >= len(term) + 1:
+                        cases.append(mk_case(v, which, [], 0, [97] * (v - len(term)) + term + [98], [(0, 5, 0)] * 3 + [(0, 70000, 0)] * 6, 3, mode, "dictionary"))
+    return cases
+
+
 class RfProp(Prop):
     harness = "sync"
     family_doc = "RF: read_frame / copy_once_from call sequences with a scripted reader -> result, readable(), reader position, reader call log"
@@ -187,6 +222,8 @@ class RfProp(Prop):
         for _ in range(nrand):
             cases.append(self.random_case(rng))
         cases += self.extra_cases(tier, rng)
+        if NOVEL:
+            cases += dictionary_cases(self.modes)
         return cases
 
     def random_stream(self, rng, which, n):
